@@ -301,7 +301,7 @@ def r5(ctx: Ctx, m):
             # handler (the waits live there)
             return bool(calls_method(a, 'get_nowait') or calls_method(a, 'put_nowait')) and (
                 b.kind == 'handler' and b.ast is not None and any(
-                    k in unparse(getattr(b.ast, 'type', None) or ast.Constant(None))
+                    k in ' '.join(cfgm.handler_type_names(b.ast) if isinstance(b.ast, ast.ExceptHandler) else [])
                     for k in ('Empty', 'Full')))
           return prune(a, b, lab)
 
@@ -588,8 +588,7 @@ def r16(ctx: Ctx, m):
         caught = set()
         broad = False
         for h in t.handlers:
-          types = [h.type] if h.type is not None and not isinstance(h.type, ast.Tuple) else (
-              h.type.elts if h.type is not None else [])
+          types = [ast.parse(x, mode='eval').body for x in cfgm.handler_type_names(h)]   # aliases expanded
           for ty in types:
             caught.add(unparse(ty))
           if h.type is None or any(unparse(ty) in ('Exception', 'BaseException') for ty in types):
@@ -1351,6 +1350,14 @@ from mlmverif.selfcheck import B, OK  # noqa: E402
 
 _F = 'utils/iter_utils.py'
 VARIANTS = [
+    B('full-signal-constant-names-the-wrong-asyncio-exception', _F,
+      '_IGNORE_ERROR_TYPES = (ValueError, TypeError)', '_IGNORE_ERROR_TYPES = (ValueError, TypeError)\n_QUEUE_FULL = (queue.Full, asyncio.QueueEmpty)', 'R-C04-16',
+      extra=((_F, '        except (queue.Full, asyncio.QueueFull) as e:\n          logging.debug(\'chainable: %s\', f\'"{self.name}" enqueue full, waiting\')',
+              '        except _QUEUE_FULL as e:\n          logging.debug(\'chainable: %s\', f\'"{self.name}" enqueue full, waiting\')'),)),
+    OK('signals-named-through-module-constants', _F,
+       '_IGNORE_ERROR_TYPES = (ValueError, TypeError)', '_IGNORE_ERROR_TYPES = (ValueError, TypeError)\n_QUEUE_FULL = (queue.Full, asyncio.QueueFull)',
+       extra=((_F, '        except (queue.Full, asyncio.QueueFull) as e:\n          logging.debug(\'chainable: %s\', f\'"{self.name}" enqueue full, waiting\')',
+               '        except _QUEUE_FULL as e:\n          logging.debug(\'chainable: %s\', f\'"{self.name}" enqueue full, waiting\')'),)),
     B('queue-iter-memoised', _F,
       '  def __iter__(self):\n    return self.dequeue_as_iterator()', "  def __iter__(self):\n    if getattr(self, '_it', None) is None:\n      self._it = self.dequeue_as_iterator()\n    return self._it", 'R-C04-19'),
     B('async-producer-does-not-await-its-puts', _F,
